@@ -126,9 +126,13 @@ func precheckInsertStmt(p *InsertPlan) error {
 		return errors.ErrIRNoColumns
 	}
 
-	values := stmt.Lists[0]
-	if len(stmt.Columns) != len(values) {
-		return fmt.Errorf("column count doesn't match value count")
+	// every row must have one value per column (MySQL error 1136); a shorter
+	// row has no sharding value to look at and a longer one is rejected by the
+	// backend after the other sub tables have already taken their rows
+	for _, values := range stmt.Lists {
+		if len(stmt.Columns) != len(values) {
+			return fmt.Errorf("column count doesn't match value count")
+		}
 	}
 
 	return nil
